@@ -2,6 +2,7 @@ package rules
 
 import (
 	"fmt"
+	"go/constant"
 	"go/token"
 	"go/types"
 	"strings"
@@ -821,33 +822,37 @@ func popVerdict(c *core.Ctx, rule string) {
 	}
 	bad := ""
 	var badPos token.Pos
-	type st struct{ b, prev *ssa.BasicBlock }
-	seen := map[st]bool{}
-	stack := []st{{dflt, nil}}
-	for len(stack) > 0 {
-		cur := stack[len(stack)-1]
-		stack = stack[:len(stack)-1]
-		if seen[cur] {
-			continue
+	// walk every path from the default arm to a return, resolving the phis met on the way by the edge taken
+	var visit func(b, prev *ssa.BasicBlock, env map[ssa.Value]ssa.Value, depth int)
+	resolve := func(env map[ssa.Value]ssa.Value, v ssa.Value) ssa.Value {
+		for i := 0; i < 8; i++ {
+			r, ok := env[v]
+			if !ok {
+				return v
+			}
+			v = r
 		}
-		seen[cur] = true
-		if r, ok := cur.b.Instrs[len(cur.b.Instrs)-1].(*ssa.Return); ok && len(r.Results) == 2 {
-			v := r.Results[1]
-			for {
-				ph, isPhi := v.(*ssa.Phi)
-				if !isPhi || ph.Block() != cur.b || cur.prev == nil {
+		return v
+	}
+	visit = func(b, prev *ssa.BasicBlock, env map[ssa.Value]ssa.Value, depth int) {
+		if depth > 24 {
+			return
+		}
+		if prev != nil {
+			for _, in := range b.Instrs {
+				ph, ok := in.(*ssa.Phi)
+				if !ok {
 					break
 				}
-				found := false
-				for i, pr := range cur.b.Preds {
-					if pr == cur.prev {
-						v, found = ph.Edges[i], true
+				for i, pr := range b.Preds {
+					if pr == prev {
+						env[ph] = resolve(env, ph.Edges[i])
 					}
 				}
-				if !found {
-					break
-				}
 			}
+		}
+		if r, ok := b.Instrs[len(b.Instrs)-1].(*ssa.Return); ok && len(r.Results) == 2 {
+			v := resolve(env, r.Results[1])
 			isFalse := false
 			if k, ok := v.(*ssa.Const); ok && k.Value != nil && k.Value.String() == "false" {
 				isFalse = true
@@ -859,11 +864,28 @@ func popVerdict(c *core.Ctx, rule string) {
 				bad = "on the empty-queue arm Pop does not answer false"
 				badPos = r.Pos()
 			}
+			return
 		}
-		for _, s := range cur.b.Succs {
-			stack = append(stack, st{s, cur.b})
+		// a branch on a value the path has fixed is followed on its taken side only
+		if ifi, ok := b.Instrs[len(b.Instrs)-1].(*ssa.If); ok {
+			if k, ok := resolve(env, ifi.Cond).(*ssa.Const); ok && k.Value != nil && k.Value.Kind() == constant.Bool {
+				s := b.Succs[1]
+				if constant.BoolVal(k.Value) {
+					s = b.Succs[0]
+				}
+				visit(s, b, env, depth+1)
+				return
+			}
+		}
+		for _, s := range b.Succs {
+			e2 := map[ssa.Value]ssa.Value{}
+			for k, v := range env {
+				e2[k] = v
+			}
+			visit(s, b, e2, depth+1)
 		}
 	}
+	visit(dflt, nil, map[ssa.Value]ssa.Value{}, 0)
 	pos := fn.Pos()
 	if bad != "" {
 		pos = badPos
